@@ -12,6 +12,7 @@ import (
 	"math/rand"
 	"os"
 	"os/exec"
+	"runtime"
 	"strconv"
 	"strings"
 	"sync"
@@ -57,7 +58,12 @@ func TestC16Child(t *testing.T) {
 		}
 	}
 	casket.TrapSignals()
-	time.Sleep(2 * time.Millisecond) // let the handler goroutines reach signal.Notify
+	// let the two handler goroutines reach signal.Notify (they are started asynchronously and
+	// nothing tells when they are installed; a signal arriving earlier has its default action)
+	for i := 0; i < 10; i++ {
+		runtime.Gosched()
+		time.Sleep(3 * time.Millisecond)
+	}
 	f.Write([]byte("{\"ev\":\"ready\"}\n"))
 	select {}
 }
@@ -163,6 +169,14 @@ func shutdownPhase(t *testing.T, res *hx.Result) {
 				defer func() { <-sem }()
 				rnd := rand.New(rand.NewSource(hx.Seed()*100003 + int64(id)))
 				lines, err := runChild(dir, id, c, rnd)
+				for try := 0; try < 3 && err == nil && strings.Contains(lines[len(lines)-1], `"code":-1`); try++ {
+					// killed by a signal's default action: the handlers were not installed yet
+					// (harness race under load) - not an observation about casket; run it again
+					lines, err = runChild(dir, id, c, rnd)
+				}
+				if err == nil && strings.Contains(lines[len(lines)-1], `"code":-1`) {
+					err = fmt.Errorf("child keeps dying from an unhandled signal")
+				}
 				mu.Lock()
 				defer mu.Unlock()
 				if err != nil {
